@@ -372,6 +372,9 @@ def run_processes(chk, t, cases, seeds, with_rich=True, scope_cases=()):
         env = dict(os.environ)
         env["PYTHONHASHSEED"] = str(s)
         env["VERIF_NO_REEXEC"] = "1"
+        # instance creation makes a "shadow" directory /tmp/chpc-<user>-shadow/<package>-<timestamp>.shadow: parallel workers that
+        # instantiate equally named packages in the same microsecond would collide there; give every worker its own user name
+        env["LOGNAME"] = "%s-c15-%s" % (os.environ.get("LOGNAME", "verif"), os.path.basename(jp).replace("job_", "").replace(".json", ""))
         env["VERIF_LAUNCH"] = "/launch/dir"          # a launch variable the environments refer to
         for name in ENV_UNSET:
             env.pop(name, None)
